@@ -342,3 +342,39 @@ def rule_end_of_buffer_neutral(col, facts):
                       "`slc.get(i).map_or(%s, pred)` but pred is %s for a byte that is neither digit nor separator: at the end (start) of the input this look-around answers differently from the same component followed (preceded) by any other character, so separators are accepted where the flags do not enable them" % (str(a[1][1]["v"]).lower(), str(v).lower()),
                       f.loc(f.blocks[bb]["ts"]))
     col.floor(R, "look-around sites with a byte-class predicate", n, 150)
+
+
+def rule_lookaround_kind(col, facts):
+    """SIB-run: the separator predicates come in pairs - `is_x` (single separators only) and `is_xc`
+    (consecutive separators enabled).  The `c` variants must classify the bytes around the *whole run*
+    (look-around index carried by the run-skipping loop of indexing!(@nextc/@prevc)), the others the bytes
+    directly adjacent (index = self.byte.index +- 1).  A `c` variant that looks one byte ahead calls the
+    second separator of `1__2` "not a digit" (accepted as trailing); a plain variant that skips runs accepts
+    consecutive separators that were never enabled."""
+    if "format" not in facts.config:
+        return
+    R = "SIB-run"
+    n = 0
+    for f in facts.all_fns():
+        if f.crate != "lexical_util" or "::skip::" not in f.short or not f.short.endswith("::peek"):
+            continue
+        comp = f.short.split("::skip::")[1].split("<")[0]
+        for bb, c, a, d, t in f.calls():
+            cn = callee_name(c)
+            if last_seg(cn) != "get" or "slice" not in cn:
+                continue
+            macs = [m for m in f.macros(f.blocks[bb]["ts"]) if m.startswith("is_")]
+            if not macs:
+                continue
+            pred = macs[0]
+            e = strip_casts(op_expr(f, a[1]))
+            if not (e[0] == "call" and last_seg(e[1]) in ("wrapping_add", "wrapping_sub") and len(e[2]) == 2):
+                continue
+            base = strip_casts(e[2][0])
+            kind = "run" if base[0] == "var" else ("single" if base[0] == "proj" else "?")
+            want = "run" if pred.endswith("c") else "single"
+            n += 1
+            col.check(R, "%s:%s:%s" % (comp, pred, last_seg(e[1])), kind == want,
+                      "%s! classifies the byte at `%s`, a %s look-around, but a predicate %s consecutive separators must use a %s one" % (pred, show(e), {"run": "run-skipping", "single": "one-byte", "?": "unrecognised"}[kind], "with" if want == "run" else "without", {"run": "run-skipping (indexing!(@nextc/@prevc))", "single": "one-byte (indexing!(@next/@prev))"}[want]),
+                      f.loc(f.blocks[bb]["ts"]))
+    col.floor(R, "look-around index computations in peek", n, 60)
